@@ -120,6 +120,15 @@ def scan_global_writes(f):
         elif isinstance(n,(ast.Import,ast.ImportFrom)):
             for a in n.names: modnames.add((a.asname or a.name).split(".")[0])
         elif isinstance(n,(ast.FunctionDef,ast.ClassDef)): modnames.add(n.name)
+    # module-level names bound to an INSTANCE created at import time (X = SomeClass(...)): shared by every call
+    inst=set()
+    for n in tree.body:
+        if isinstance(n,(ast.Assign,ast.AnnAssign)) and isinstance(n.value,ast.Call):
+            fname=ast.unparse(n.value.func)
+            if fname.split(".")[-1] not in ("type","tuple","frozenset","sorted","get_public_type_names","TypeVar","getLogger","namedtuple","compile"):
+                for t in (n.targets if isinstance(n,ast.Assign) else [n.target]):
+                    if isinstance(t,ast.Name): inst.add(t.id)
+    READONLY={"get","items","keys","values","copy","repr","format","join","startswith","endswith","index","count","dispatch","__contains__"}
     out=[]
     def in_func(fn, qual):
         locs={a.arg for a in fn.args.args+fn.args.kwonlyargs+fn.args.posonlyargs}
@@ -138,9 +147,17 @@ def scan_global_writes(f):
                     for x in ast.walk(t):
                         if isinstance(x,ast.Name) and isinstance(x.ctx,ast.Store): locs.add(x.id)
         for g in globs: out.append((qual,"global "+g,fn.lineno))
+        # local aliases of module-level objects:  x = MODULE_LEVEL_NAME
+        alias={}
+        for n in ast.walk(fn):
+            if isinstance(n,ast.Assign) and isinstance(n.value,ast.Name) and n.value.id in modnames and n.value.id not in ("self","cls"):
+                for t in n.targets:
+                    if isinstance(t,ast.Name): alias[t.id]=n.value.id
         def base(e):
             while isinstance(e,(ast.Attribute,ast.Subscript)): e=e.value
+            if isinstance(e,ast.Name) and e.id in alias and alias[e.id] not in locs: return alias[e.id]
             return e.id if isinstance(e,ast.Name) else None
+        locs -= set(alias)
         for n in ast.walk(fn):
             if isinstance(n,(ast.Assign,ast.AugAssign,ast.AnnAssign,ast.Delete)):
                 tg=n.targets if isinstance(n,(ast.Assign,ast.Delete)) else [n.target]
@@ -153,6 +170,10 @@ def scan_global_writes(f):
                 b=base(n.func.value)
                 if b and b in modnames and b not in locs:
                     out.append((qual,"call "+ast.unparse(n.func),n.lineno))
+            elif isinstance(n,ast.Call) and isinstance(n.func,ast.Attribute) and n.func.attr not in READONLY:
+                b=base(n.func.value)
+                if b and b in inst and b not in locs:
+                    out.append((qual,"method call on module-level instance "+b+": "+ast.unparse(n.func),n.lineno))
         for d in fn.decorator_list:
             name=ast.unparse(d)
             if any(c in name for c in CACHE): out.append((qual,"decorator "+name,fn.lineno))
